@@ -2,6 +2,7 @@ package c20
 
 import (
 	"fmt"
+	"strings"
 
 	"verif/harness/props/catalog"
 )
@@ -64,6 +65,27 @@ func anticipated(x *world) []*fcase {
 	add("put-object", "chunk-size:signed:first", "2^32", credValid)
 	add("put-object", "chunk-size:signed-trailer:first", "-1", credValid)
 	add("put-object", "chunk-size:signed-trailer:first", "2^63-1", credBadSig)
+	// aws-chunked decoders: every structural variation and every truncation point of a small stream, correctly
+	// signed (the decoders run before / while the signature is checked, and a decoder that never returns is a
+	// wedge just like a panic is a crash). All three stream modes, PutObject and UploadPart.
+	for _, entry := range []string{"put-object", "upload-part"} {
+		e := catalog.ByName(entry)
+		if cache[entry] == nil {
+			cache[entry] = fieldsFor(x, e)
+		}
+		for _, f := range cache[entry] {
+			switch {
+			case strings.HasPrefix(f.name, "chunk-misc:"):
+				for _, v := range f.vals {
+					add(entry, f.name, v.class, credValid)
+				}
+			case strings.HasPrefix(f.name, "chunk-cut:"), strings.HasPrefix(f.name, "chunk-eof:") && entry == "put-object":
+				for _, v := range f.vals {
+					add(entry, f.name, v.class, credValid)
+				}
+			}
+		}
+	}
 	// ListBuckets: buckets[len-1] with max-buckets=0
 	add("list-buckets", "q:max-buckets", "0", credValid)
 	add("list-buckets", "q:max-buckets", "0", credUser)
